@@ -662,6 +662,91 @@ Section Sim2.
   Qed.
 End Sim2.
 
+(** * bulk rename is a map operation on exactly the names under the old remote *)
+Section Sim3.
+  Variable fk : filter_kind.
+  Hypothesis fk_ok : filter_ok fk = true.
+
+  Lemma ren_remote_keys : forall a r, Sinv a ->
+    let op := remote_prefix r in
+    let ks := map fst (filter (fun kv => is_prefix op (fst kv)) (refs a)) in
+    Forall (fun k => is_prefix op k = true) ks /\ NoDup ks /\
+    (forall k, In k ks <-> (m_get k (refs a) <> None /\ is_prefix op k = true)).
+  Proof.
+    intros a r [Hs _] op ks. split; [apply filter_keys_prefix|]. split.
+    - apply ssorted_nodup. now apply filter_sorted.
+    - intros k. unfold ks. rewrite <- s_filter_single. apply filter_keys_exact.
+  Qed.
+
+  Theorem bulk_rename_exact : forall ops r r',
+    let op := remote_prefix r in
+    let np := remote_prefix r' in
+    is_prefix op np = false -> is_prefix np op = false ->
+    let c := creach fk cinit ops in
+    let c' := fst (cstep_op fk c (ORenRemote r r')) in
+    snd (cstep_op fk c (ORenRemote r r')) = ROk ->
+    forall rest,
+      cget c' (op ++ rest) = None /\ clog c' (op ++ rest) = ([], true) /\
+      cget c' (np ++ rest) =
+        (match cget c (op ++ rest) with Some v => Some v | None => cget c (np ++ rest) end) /\
+      clog c' (np ++ rest) =
+        (match cget c (op ++ rest) with Some _ => clog c (op ++ rest) | None => clog c (np ++ rest) end).
+  Proof.
+    intros ops r r' op np Hd1 Hd2 c c' Hok rest.
+    pose proof (reach_R fk fk_ok ops) as H. fold c in H.
+    destruct (op_sim fk fk_ok (ORenRemote r r') _ c H) as [E H']. fold c' in H'.
+    set (a := sreach sinit ops) in *.
+    rewrite Hok in E. symmetry in E.
+    rewrite !(R_cget _ _ _ H'), !(R_cget _ _ _ H), !(R_clog _ _ _ H'), !(R_clog _ _ _ H).
+    cbn [sstep_op] in *. fold op in E, H' |- *. fold np in E, H' |- *.
+    destruct (ren_remote_keys a r (R_inv a c H)) as [Kp [Kn Kin]]. fold op in Kp, Kn, Kin.
+    set (ks := map fst (filter (fun kv => is_prefix op (fst kv)) (refs a))) in *.
+    assert (Hex : forall k, In k ks -> m_get k (refs a) <> None) by (intros k Hin; now apply Kin).
+    destruct (s_rename_each_exact op np Hd1 Hd2 ks a Kp Kn Hex E) as [X1 X2].
+    set (a' := fst (s_rename_each (length op) np ks a)) in *.
+    assert (Hsplit : skipn (length op) (op ++ rest) = rest).
+    { rewrite skipn_app, skipn_all, Nat.sub_diag. reflexivity. }
+    assert (Himg : img op np (op ++ rest) = np ++ rest) by (unfold img; now rewrite Hsplit).
+    destruct (m_get (op ++ rest) (refs a)) as [v|] eqn:Eg.
+    - assert (Hin : In (op ++ rest) ks) by (apply Kin; split; [congruence|apply is_prefix_app]).
+      destruct (X1 _ Hin) as [J1 [J2 [J3 J4]]]. rewrite Himg in J3, J4.
+      rewrite J1, J2, J3, J4, Eg. repeat split; reflexivity.
+    - assert (Hnin : ~ In (op ++ rest) ks) by (intros Hin; apply Kin in Hin; tauto).
+      assert (Hn1 : forall k0, In k0 ks -> op ++ rest <> img op np k0).
+      { intros k0 Hin. apply not_eq_sym. apply (img_not_src op np Hd1 Hd2). apply is_prefix_app. }
+      destruct (X2 _ Hnin Hn1) as [J1 J2].
+      assert (Hnin2 : ~ In (np ++ rest) ks).
+      { intros Hin. rewrite Forall_forall in Kp. specialize (Kp _ Hin).
+        rewrite <- Himg in Kp. exact (img_not_src op np Hd1 Hd2 _ (op ++ rest) Kp eq_refl). }
+      assert (Hn2 : forall k0, In k0 ks -> np ++ rest <> img op np k0).
+      { intros k0 Hin Eq. rewrite <- Himg in Eq. rewrite Forall_forall in Kp.
+        apply (img_inj op np) in Eq; [|apply is_prefix_app|apply Kp, Hin]. subst k0. contradiction. }
+      destruct (X2 _ Hnin2 Hn2) as [J3 J4].
+      destruct (R_inv a c H) as [_ Hdom].
+      rewrite J1, J2, J3, J4, Eg, (Hdom _ Eg). repeat split; reflexivity.
+  Qed.
+
+  Theorem bulk_rename_succeeds : forall ops r r',
+    let op := remote_prefix r in
+    let np := remote_prefix r' in
+    is_prefix op np = false -> is_prefix np op = false ->
+    let c := creach fk cinit ops in
+    (forall rest, cget c (op ++ rest) <> None -> cget c (np ++ rest) = None) ->
+    snd (cstep_op fk c (ORenRemote r r')) = ROk.
+  Proof.
+    intros ops r r' op np Hd1 Hd2 c Hfree.
+    pose proof (reach_R fk fk_ok ops) as H. fold c in H.
+    destruct (op_sim fk fk_ok (ORenRemote r r') _ c H) as [E _].
+    set (a := sreach sinit ops) in *. rewrite E. cbn [sstep_op]. fold op. fold np.
+    destruct (ren_remote_keys a r (R_inv a c H)) as [Kp [Kn Kin]]. fold op in Kp, Kn, Kin.
+    apply (s_rename_each_ok op np Hd1 Hd2); auto.
+    - intros k Hin. now apply Kin.
+    - intros k Hin. apply Kin in Hin. destruct Hin as [Hex Hp].
+      unfold img. rewrite <- (R_cget _ _ _ H). apply Hfree.
+      rewrite (R_cget _ _ _ H), <- (is_prefix_split op k Hp). exact Hex.
+  Qed.
+End Sim3.
+
 (** the pre-fix WHERE clause does not refine the specification *)
 From Coq Require Import String.
 Definition like_witness : list op :=
@@ -707,3 +792,19 @@ Example nv_carry :
   snd (cstep_op FInstr (creach FInstr cinit nv_hist) (OP (PCopy (nv_b "remotes/a_b/x") (nv_b "remotes/z/x")))) = ROk /\
   fst (clog (creach FInstr cinit nv_hist) (nv_b "remotes/a_b/x")) <> [].
 Proof. vm_compute. repeat split; discriminate. Qed.
+
+(* bulk rename of a remote whose name occurs inside "remotes/": hypotheses hold, it succeeds, and the
+   refs and logs arrive under remotes/origin/ *)
+Definition nv_hist_o : list op :=
+  [OP (PSetLog (nv_b "remotes/o/main") [1] nv_meta); OP (PSetLog (nv_b "remotes/o/main") [2] nv_meta);
+   OP (PSet (nv_b "remotes/o/o") [3]); OP (PSet (nv_b "remotes/other/main") [4]); OP (PSet (nv_b "heads/o") [5])].
+Example nv_bulk_rename :
+  is_prefix (remote_prefix (nv_b "o")) (remote_prefix (nv_b "origin")) = false /\
+  is_prefix (remote_prefix (nv_b "origin")) (remote_prefix (nv_b "o")) = false /\
+  snd (cstep_op FInstr (creach FInstr cinit nv_hist_o) (ORenRemote (nv_b "o") (nv_b "origin"))) = ROk /\
+  crun FInstr cinit (nv_hist_o ++ [ORenRemote (nv_b "o") (nv_b "origin"); OP (PFilterKey [] []);
+                                   OP (PLogRead (nv_b "remotes/origin/main"))]) =
+  [ROk; ROk; ROk; ROk; ROk; ROk;
+   RKeys [nv_b "heads/o"; nv_b "remotes/origin/main"; nv_b "remotes/origin/o"; nv_b "remotes/other/main"];
+   RLog [mk_logent (Some [1]) [2] nv_meta; mk_logent None [1] nv_meta] true].
+Proof. vm_compute. repeat split; reflexivity. Qed.
